@@ -97,7 +97,9 @@ PROPS = {
 }
 
 def arith_entry(rule, nontrivial, modes=None, **kw):
-    d = {"bin": "arith", "modes": modes or {"quick": ["debug"], "thorough": ["debug", "release"]}, "prims": True,
+    # both build modes in every tier: the forms of one family must agree with the specification in a build
+    # with and in a build without debug assertions (a release-only slip in one form is otherwise invisible)
+    d = {"bin": "arith", "modes": modes or {"quick": ["debug", "release"], "thorough": ["debug", "release"]}, "prims": True,
          "rule": rule, "nontrivial": nontrivial, "mc": {"quick": [], "thorough": []}}
     d.update(kw)
     return d
